@@ -96,3 +96,26 @@ Theorem C03_return_restores_caller : forall s loops p e ret caller,
              m_globals s' = m_globals s /\ m_regs s' = m_regs s.
 Proof. exact return_restores_caller. Qed.
 Print Assumptions C03_return_restores_caller.
+
+(* ---- forward simulation of calls (Lang/Simulation3.v) ----
+   A call `f a b ...` of a user routine whose body is covered (settings, assignments, print, wait, set / on / off, if / else,
+   blocks, while / counted / endless loops, break, further calls, return -- no routine reaching itself), arguments ordinary values,
+   anywhere in an image that holds the compiled routine bodies, inside a routine or not: whenever the reference semantics runs the
+   call (arguments evaluated in the caller's scope, parameters bound by value as the routine's own variables hiding the globals of
+   the same name, the body run, `return` from any depth of loops) the compiled CTX / PARAM / JSR / END_CTX sequence and the
+   routine's code run on the machine model to the instruction behind the call, with exactly the same events, the caller's
+   evaluation stack as it was and the caller's frames as they were (up to the dictionary of the caller's own routine, which
+   assignments in the callee cannot reach), and the correspondence of registers, globals, variables and lights holds again. *)
+From Bardolph Require Import Lang.Instr Lang.Loader Lang.CodeGen Lang.ExprCompile Lang.Simulation Lang.CallFrames Lang.Simulation3.
+
+Theorem C03_call_runs_as_its_source_says :
+  forall rt mt (inl inr : bool) f args b d, builtin_params f builtin_table = None -> find_rdef rt f = Some d ->
+  plain_args mt args (rd_params d) = true -> SimpleB rt mt false true (rd_body d) ->
+  forall after im ss s sig ss' fuel, routines_loaded rt mt im -> depth_ok (m_frames s) (zlength (m_stack s)) -> sim ss s ->
+  code_at im (m_pc s) (c_stmt rt mt false after (SCall f args b)) ->
+  Sem.exec rt mt fuel false ss (SCall f args b) = ROk sig ss' ->
+  sig = SigNormal /\
+  exists n s' evs, esteps n im s = Some (s', evs) /\ sim ss' s' /\ m_pc s' = m_pc s + zlength (c_stmt rt mt false after (SCall f args b)) /\
+                   (m_stack s', fr s') = (m_stack s, fr s) /\ rev (s_trace ss') = rev (s_trace ss) ++ evs.
+Proof. exact call_simulation. Qed.
+Print Assumptions C03_call_runs_as_its_source_says.
